@@ -1,7 +1,10 @@
 """Message-level language of a protocol grammar by Brzozowski derivatives (exact for unbounded repetitions).
 
-Letters are (sender, recipient, symbol name). Built from fandango's node objects *as they are after*
-init_io / slice_parties, so slicing is judged against the sliced grammar."""
+Letters are (sender, recipient, symbol name). Built from fandango's node objects.  With `keep` (a set of party
+names) the builder is given the UNSLICED grammar and applies the slicing rule itself - a message whose sender (and, unless receivers are
+ignored, whose recipient) is outside `keep` vanishes; a sequence drops vanished members, an alternative drops vanished branches,
+a repetition vanishes with its body, a symbol vanishes with its whole rule - so that fandango's own slicing
+(slice_parties / PacketTruncator) is judged against an independent reading of the same rule."""
 EPS = ("eps",)
 EMPTY = ("empty",)
 
@@ -26,7 +29,10 @@ def alt(a, b):
     return ("alt", a, b)
 
 
-def from_grammar(g, start="<start>"):
+VANISH = ("vanish",)
+
+
+def from_grammar(g, start="<start>", keep=None, ignore_receivers=False):
     from fandango.language.symbols import NonTerminal
     from fandango.language.grammar.nodes.non_terminal import NonTerminalNode
     from fandango.language.grammar.nodes.terminal import TerminalNode
@@ -39,25 +45,46 @@ def from_grammar(g, start="<start>"):
             raise RecursionError("recursive protocol grammar: not supported by the finite expansion")
         if isinstance(node, NonTerminalNode):
             if node.sender is not None:
+                if keep is not None:
+                    if ignore_receivers:
+                        hidden = node.sender not in keep
+                    else:
+                        hidden = node.recipient is not None and node.sender not in keep and node.recipient not in keep
+                    if hidden:
+                        return VANISH
                 return ("let", (node.sender, node.recipient, node.symbol.name()))
             return rx(g.rules[node.symbol], depth + 1)
         if isinstance(node, TerminalNode):
             return ("term",)
         if isinstance(node, Alternative):
+            parts = [rx(a, depth) for a in node.alternatives]
+            parts = [x for x in parts if x != VANISH]
+            if not parts and node.alternatives:
+                return VANISH
             r = EMPTY
-            for a in node.alternatives:
-                r = alt(r, rx(a, depth))
+            for x in parts:
+                r = alt(r, x)
             return r
         if isinstance(node, Concatenation):
+            parts = [rx(n, depth) for n in node.nodes]
+            kept = [x for x in parts if x != VANISH]
+            if not kept and parts:
+                return VANISH
             r = EPS
-            for n in node.nodes:
-                r = seq(r, rx(n, depth))
+            for x in kept:
+                r = seq(r, x)
             return r
         if isinstance(node, Repetition):
-            return ("rep", rx(node.node, depth), node.min, node.internal_max)
+            b = rx(node.node, depth)
+            if b == VANISH:
+                return VANISH
+            return ("rep", b, node.min, node.internal_max)
         raise TypeError(type(node).__name__)
 
-    return rx(NonTerminalNode(NonTerminal(start), []))
+    r0 = rx(NonTerminalNode(NonTerminal(start), []))
+    if r0 == VANISH:
+        raise KeyError(start)
+    return r0
 
 
 def nullable(r):
